@@ -2,6 +2,7 @@
 C24 — helper lemmas for the round-trip and totality theorems.
 -/
 import ZoektModel.C24.Spec
+import ZoektModel.C24.ApiModel
 namespace ZoektModel.C24
 open ZoektModel
 
